@@ -3,8 +3,8 @@ package main
 // C16 — CMS structures survive parsing and re-encoding bit-exactly.
 
 import (
-	"go/ast"
 	"fmt"
+	"go/ast"
 	"go/types"
 	"strings"
 
